@@ -41,7 +41,7 @@ def floors(tier):
           'ev:smooth_force': 180 * k, 'ev:step_equals_reference': 60 * k,
           'states_with_slide_on_rotated_body': 60 * k,
           'steps_with_slide_on_rotated_body': 20 * k,
-          'models_mixed_stack': 8 * k}
+          'models_mixed_stack': 8 * k, 'deep_chain_models': 4 * k}
 
 
 def run(job, mon):
@@ -59,7 +59,11 @@ def run(job, mon):
       spec = gen.gen_model(rng, stack_kinds=str(rng.choice(['slide', 'any'])),
                            limit_prob=0.15)
     elif c % 4 == 2:
-      spec = gen.gen_model(rng, limits=False)
+      spec = gen.gen_model(rng, limits=False, chain=bool(c % 8 == 2),
+                           n_links=int(rng.integers(5, 7)) if c % 8 == 2
+                           else None)
+      if c % 8 == 2:
+        mon.count('deep_chain_models')
     else:
       spec = gen.gen_model(rng)
     xml = gen.to_xml(spec)
